@@ -47,6 +47,15 @@ def cases(tier, seed):
             for hold in ((0.001,) if tier == 'quick' else (0.0002, 0.001, 0.005)):
                 out.append(dict(kind='exhaustive', layer=layer, mode='cmdt2', role='orig', w=w, lat=(0.0001, 0.001), hold=hold, size=unit * 3 - 2,
                                 seed=seed * 131 + len(out)))
+    # block-wise download: B answers block 1 with a short "next block" command, A's subscriber answers that with block 2 (a new transfer to
+    # the same peer submitted from inside a receive callback while A's job thread may be cleaning up the first session)
+    for layer in ('j1939-21', 'j1939-22'):
+        unit = 60 if layer == 'j1939-22' else 7
+        for w in (1, 255):
+            for hold in ((0.001, 0.005) if tier == 'quick' else (0.0002, 0.001, 0.005)):
+                for cd in ((0.0005,) if tier == 'quick' else (0.0, 0.0003, 0.001)):
+                    out.append(dict(kind='exhaustive', layer=layer, mode='cmdt_chain', role='orig', w=w, lat=(0.0001, 0.001), hold=hold, size=unit * 2 - 2,
+                                    cmd_delay=cd, seed=seed * 131 + len(out)))
     # connection-mode transfers with a configured minimum DT interval (the burst loop leaves after every packet: another code path)
     for layer in ('j1939-21', 'j1939-22'):
         unit = 60 if layer == 'j1939-22' else 7
@@ -151,6 +160,21 @@ def one_run(case, plan, seed):
         if mode == 'cmdt2':
             cb2 = W.ca(B, 0x21, identity_number=3)
             W.listen_ca(cb2, 'B2')
+        if mode == 'cmdt_chain':
+            pay2 = [x ^ 0xA5 for x in pay]
+            chain = dict(cmd=0, blk2=None)
+
+            def on_b(priority, pgn, sa, timestamp, data):
+                if bytes(data) == bytes(pay) and not chain['cmd']:
+                    chain['cmd'] = 1
+                    # the application asks for the next block a moment later (after the stack has acknowledged block 1)
+                    sim.after(case.get('cmd_delay', 0.0005), lambda: cb.send_pgn(0, 0xD1, 0x10, 6, [0x4E, 0x58, 0x54]))      # "next block"
+
+            def on_a(priority, pgn, sa, timestamp, data):
+                if bytes(data) == bytes([0x4E, 0x58, 0x54]) and chain['blk2'] is None:
+                    chain['blk2'] = ca.send_pgn(0, 0xD0, 0x20, 6, list(pay2))
+            cb.subscribe(on_b)
+            ca.subscribe(on_a)
         W.run(0.01)
         args = (0, 0xD0, 0x20, 6, list(pay)) if mode.startswith('cmdt') else (0, 0xFE, 0xF6, 6, list(pay))
 
@@ -165,6 +189,14 @@ def one_run(case, plan, seed):
     exp_pgn = 0xD000 if mode.startswith('cmdt') else 0xFEF6
     exact = [d for d in W.deliv['B'] if d[4] == bytes(pay) and M.norm_pgn(d[2]) == exp_pgn and d[3] == 0x10]
     other = [d for d in W.deliv['B'] if d not in exact]
+    if mode == 'cmdt_chain':
+        ex2 = [d for d in W.deliv['B'] if d[4] == bytes(pay2) and d[3] == 0x10]
+        other = [d for d in other if d not in ex2]
+        # block 2: if send_pgn accepted it (True) it must be delivered exactly once; a refusal (False: the pair / pool is still busy because the
+        # clean-up of block 1 was delayed by the pre-emption) is a legal answer and then nothing may arrive
+        want2 = 1 if chain['blk2'] is True else 0
+        if len(ex2) != want2:
+            exact = exact[:0] if len(ex2) < want2 else exact + ex2
     if mode == 'cmdt2':
         ex2 = [d for d in W.deliv['B2'] if d[4] == bytes(pay) and M.norm_pgn(d[2]) == exp_pgn and d[3] == 0x10]
         other += [d for d in W.deliv['B2'] if d not in ex2]
@@ -194,7 +226,7 @@ def judge(case, r, viol, what, obs):
         viol.add('corrupt_delivery', '%s: receiver got len=%d pgn=%05X (pre-empted at %s)' % (what, len(d[4]), d[2], locs), **tag)
     for d in ([] if case['mode'].startswith('x_in_') else W.deliv['A']):
         fd = layer == 'j1939-22'
-        okk = d[3] in (0x20, 0x21) and len(W.deliv['A']) <= (2 if case['mode'] == 'cmdt2' else 1)      # end-of-message notification(s), form not judged
+        okk = d[3] in (0x20, 0x21) and len(W.deliv['A']) <= {'cmdt2': 2, 'cmdt_chain': 3}.get(case['mode'], 1)      # end-of-message notification(s) (+ the command), form not judged
         if not okk:
             viol.add('unexpected_delivery', '%s: originator listener got len=%d' % (what, len(d[4])), **tag)
     # a transfer that completes cleanly un-pre-empted must not end with a connection abort from either side under pre-emption
